@@ -22,7 +22,9 @@ tie:   exact correspondence (ctx.coq_bool_cases, model at BigQ): radial grids wi
 search: every observation is judged by the property's own product formula (numpy float oracle / exact Fractions), the
        preset grids by "every shell has at least the tabulated number of points in the requested method's table";
        unbuildable presets are reported with the concrete call.
-histories: on every constructed grid .points is read, the returned array is edited in place by the caller and everything is
+histories: before anything else a stand-alone AngularGrid of every small degree (and, lazily, of every preset degree) is built,
+       its points/weights are copied as the reference and then edited in place by "a user"; atomic grids built afterwards
+       must still carry the unit grid.  On every constructed grid .points is read, the returned array is edited in place by the caller and everything is
        read again (the second read is what goes to Coq and to the oracles); returned shell grids are edited in place and
        requested again; the float64 array passed as centre is updated in place and the grid must stay centre + r_i*(p.M_i)
        for the centre it then reports.
@@ -377,8 +379,23 @@ class Spheres:
             with warnings.catch_warnings():
                 warnings.simplefilter("ignore")
                 g = AngularGrid(degree=deg, method=meth)
-            self.data[k] = (np.array(g.points, dtype=float), np.array(g.weights, dtype=float))
+            self.data[k] = (np.array(g.points, dtype=float, copy=True), np.array(g.weights, dtype=float, copy=True))
+            # History: a user of the library edits the arrays of this stand-alone angular grid IN PLACE (normalises the
+            # weights, shifts the nodes).  The reference above was taken before; atomic grids built afterwards must
+            # still carry the unit grid of the method/degree, not the user's edited copy.
+            try:
+                pa, wa = g.points, g.weights
+                wa *= 0.5
+                wa += 0.25
+                pa += 1.0
+            except ValueError:      # read-only arrays were handed out: nothing the user can edit
+                pass
         return self.data[k]
+
+    def prime(self, meth, degrees):
+        """build (and let the user edit in place) a stand-alone angular grid of every given supported degree"""
+        for dg in sorted(set(degrees)):
+            self.get(meth, dg)
 
     def header(self):
         L = []
@@ -829,10 +846,12 @@ def judge_call(sph, tabs, d):
     n, meth, rotate = len(d["r"]), d["method"], d["rotate"]
     center = [0.0, 0.0, 0.0] if d["center"] is None else d["center"]
     keep = {}
+    req = requested_degrees(tabs, meth, n, tuple(d["spec"])) if d["via"] == "init" else pruned_request(tabs, d)
+    if req is not None:     # history before the call: stand-alone angular grids of these degrees were built and edited in place
+        sph.prime(meth, [resolve_deg(tabs, meth, x)[0] for x in req])
     st, g = build_call(d, keep)
     rg_ok = n > 0 and all(x >= 0 for x in d["r"])
     rot_ok = isinstance(rotate, int) and 0 <= rotate < 2 ** 32 - n
-    req = requested_degrees(tabs, meth, n, tuple(d["spec"])) if d["via"] == "init" else pruned_request(tabs, d)
     must_build = rg_ok and rot_ok and req is not None
     if st == "exc":
         if must_build:
@@ -927,6 +946,8 @@ def _run(ctx: Ctx):
     lap("gen+build")
     rng = ctx.rng
     sph = Spheres(ctx, tabs)
+    for m_, _, _ in METHODS:    # history before every construction below: stand-alone angular grids built and edited in place by a user
+        sph.prime(m_, small_degrees(tabs, m_, 72 if m_ == "ahrens_beylkin" else 50))
     pending = ctx._pending   # (size, obligation, key, observed, text, replay, found); flushed by run() even if a later step raises
 
     # the decidable build condition of the model for every tabulated (preset, element): which pairs does the model
@@ -1497,6 +1518,11 @@ def replay(rp):
     if "atnum" in rp and "preset" in rp and rp.get("rgrid_points") is not None:
         rg = OneDGrid(np.array(rp["rgrid_points"]), np.array(rp["rgrid_weights"]), (0, np.inf))
         cen = np.zeros(3) if rp["center"] is None else np.array(rp["center"])
+        tabs, _ = extract_tables()
+        sphr = Spheres(None, tabs)
+        row0 = load_presets()[rp["preset"]]["rows"][rp["atnum"]]
+        # history before the call: stand-alone angular grids of the tabulated sizes were built and edited in place
+        sphr.prime(rp["method"], [rs[0] for rs in (resolve_size(tabs, rp["method"], s_) for s_ in row0[2]) if rs is not None])
         st, v = observe(lambda: AtomGrid.from_preset(rp["atnum"], rp["preset"], None if rp.get("default_rgrid") else rg,
                                                      center=cen, rotate=rp["rotate"], method=rp["method"]))
         row = load_presets()[rp["preset"]]["rows"][rp["atnum"]]
@@ -1510,7 +1536,7 @@ def replay(rp):
         tabs, _ = extract_tables()
         rpts = [float(x) for x in v.rgrid.points]
         _, obs2, prob = read_after_caller_edit(v)
-        bad = prob or judge_preset(Spheres(None, tabs), tabs, row, rp["method"], rpts, [float(x) for x in v.rgrid.weights], cen, rp["rotate"], obs2)
+        bad = prob or judge_preset(sphr, tabs, row, rp["method"], rpts, [float(x) for x in v.rgrid.weights], cen, rp["rotate"], obs2)
         print(f"built {len(v.degrees)} shells, degrees {list(map(int, v.degrees))[:16]}...")
         print("FAILS: " + bad[0] + " - " + bad[1] if bad else "the grid satisfies the property on this source tree")
         return 1 if bad else 0
